@@ -136,6 +136,12 @@ Definition summary (l : list bytes) : bytes :=
       ++ bs " e.g. " ++ join_bytes (bs " ") (firstn 5 l)
   end.
 
+Fixpoint dedupe (l : list bytes) : list bytes :=
+  match l with
+  | [] => []
+  | x :: r => if mem_bytes x r then dedupe r else x :: dedupe r
+  end.
+
 (* oracle over the same enumeration: which strings the implementation accepted (lines of obs, in
    enumeration order) against the grammar decider *)
 Definition prop_enum (args : list bytes) : bytes :=
@@ -158,7 +164,11 @@ Definition prop_enum (args : list bytes) : bytes :=
       | [], [], [] => bs "ok"
       | _, _, _ =>
           bs "FAIL" ++
-          (match extra with [] => [] | _ => bs " accepted-not-in-grammar" ++ summary (rev extra) end) ++
+          (match extra with
+           | [] => []
+           | _ => bs " accepted-not-in-grammar departures=" ++
+                  join_bytes (bs ",") (dedupe (map (departure_kind kind) extra)) ++ summary (rev extra)
+           end) ++
           (match missing with [] => [] | _ => bs "; in-grammar-but-refused" ++ summary (rev missing) end) ++
           (match pending with [] => [] | _ => bs "; unmatched-lines" end)
       end
